@@ -1330,6 +1330,18 @@ fn classify_tx(frame: &[u8], med: Med) -> Result<(Tx, String), Fail> {
     }
 }
 
+/// Stable name of an emitted ICMP error for failure keys.
+fn err_name(t: &Tx) -> String {
+    match t {
+        Tx::IcmpError { v6: false, ty: 3, .. } | Tx::IcmpError { v6: true, ty: 1, .. } => "icmp-dst-unreachable".to_string(),
+        Tx::IcmpError { v6: false, ty: 11, .. } | Tx::IcmpError { v6: true, ty: 3, .. } => "icmp-time-exceeded".to_string(),
+        Tx::IcmpError { v6: true, ty: 4, code: 1 } => "icmp-param-problem-unrecognized-next-header".to_string(),
+        Tx::IcmpError { v6: true, ty: 4, code: 2 } => "icmp-param-problem-unrecognized-option".to_string(),
+        Tx::IcmpError { v6, ty, .. } => format!("icmpv{}-error-type{}", if *v6 { 6 } else { 4 }, ty),
+        _ => "not-an-icmp-error".to_string(),
+    }
+}
+
 struct Effects {
     tcp_state: Option<(tcp::State, tcp::State)>,
     tcp_rx: usize,
@@ -1516,15 +1528,12 @@ fn run_cell(c: &Coord, f: &Fill, ctx: &mut Ctx) -> Result<Vec<Fail>, Fail> {
     if fx.raw > 0 {
         ctx.label("fx:raw-delivered");
     }
-    let mut nd = false;
     for (t, _) in &fx.tx {
         match t {
             Tx::ArpRequest => {
-                nd = true;
                 ctx.label("tx:arp-request(not counted as an answer)")
             }
             Tx::NeighborSolicit => {
-                nd = true;
                 ctx.label("tx:neighbor-solicit(not counted as an answer)")
             }
             Tx::ArpReply => ctx.label("tx:arp-reply"),
@@ -1539,7 +1548,6 @@ fn run_cell(c: &Coord, f: &Fill, ctx: &mut Ctx) -> Result<Vec<Fail>, Fail> {
     if fx.tx.is_empty() {
         ctx.label("tx:nothing");
     }
-    let _ = nd;
 
     // ---- rules
     let mut v: Vec<Fail> = vec![];
@@ -1602,8 +1610,7 @@ fn run_cell(c: &Coord, f: &Fill, ctx: &mut Ctx) -> Result<Vec<Fail>, Fail> {
             let k = match t {
                 Tx::TcpRst => "tcp-rst".to_string(),
                 Tx::TcpOther(fl) => format!("tcp-{}", flags_str(*fl)),
-                Tx::IcmpError { ty: 4, code: 2, v6: true } if c.proto == Proto::Hbh10 || c.proto == Proto::Hbh11 => "icmp-param-problem-unrecognized-option".to_string(),
-                Tx::IcmpError { .. } => "icmp-error".to_string(),
+                Tx::IcmpError { .. } => err_name(t),
                 Tx::EchoReply => "echo-reply".to_string(),
                 _ => "other".to_string(),
             };
@@ -1670,7 +1677,7 @@ fn run_cell(c: &Coord, f: &Fill, ctx: &mut Ctx) -> Result<Vec<Fail>, Fail> {
                 ctx.label("r3-exempt:param-problem-code2-for-option-10xxxxxx");
                 ctx.count("r3_exempt_param_problem_code2", 1);
             } else {
-                v.push(Fail::new(format!("R3:icmp-error:{}", cls), format!("ICMP error [{}] sent in answer to: {}", d, what)));
+                v.push(Fail::new(format!("R3:{}:{}", err_name(t), cls), format!("ICMP error [{}] sent in answer to: {}", d, what)));
             }
         }
     }
@@ -1682,8 +1689,8 @@ fn run_cell(c: &Coord, f: &Fill, ctx: &mut Ctx) -> Result<Vec<Fail>, Fail> {
         if let Some((_, d)) = rst {
             v.push(Fail::new(format!("R4:tcp-rst-answers-{}", input), format!("TCP reset [{}] sent in answer to: {}", d, what)));
         }
-        if let Some((_, d)) = icmp_err {
-            v.push(Fail::new(format!("R4:icmp-error-answers-{}", input), format!("ICMP error [{}] sent in answer to: {}", d, what)));
+        if let Some((t, d)) = icmp_err {
+            v.push(Fail::new(format!("R4:{}-answers-{}", err_name(t), input), format!("ICMP error [{}] sent in answer to: {}", d, what)));
         }
     }
 
